@@ -79,7 +79,7 @@ Definition rfc3339 (ns off : Z) : str :=
               else if nanos mod 1000000 =? 0 then 46%N :: pad_digits 3 (nanos / 1000000)
               else if nanos mod 1000 =? 0 then 46%N :: pad_digits 6 (nanos / 1000)
               else 46%N :: pad_digits 9 nanos in
-  let ao := Z.abs off in
+  let ao := (Z.abs off + 30) / 60 * 60 in     (* the offset is written to the nearest minute *)
   year ++ [45%N] ++ two (f_month f) ++ [45%N] ++ two (f_day f) ++ [ch "T"] ++
   two (f_hour f) ++ [58%N] ++ two (f_min f) ++ [58%N] ++ two (f_sec f) ++ frac ++
   [if off <? 0 then 45%N else 43%N] ++ two (ao / 3600) ++ [58%N] ++ two ((ao mod 3600) / 60).
